@@ -113,6 +113,22 @@ def int_grid(rng, m, kind):
 
 def gen_cases(rng, quick):
     """yield (label, grid, x, mask, from_csv)"""
+    # LARGE datasets on both sides of the `approx` switch of IrregularFunctionalData.mean (binned estimate when the long
+    # table has more than 2000 rows): stored cells n_obs * n_grid > 2000 in every case, observed samples just below
+    # 2000 (exact path) or above (binned path); missingness depends on the curve
+    large = [(10, 250, 0.35), (10, 250, 0.08)] if quick else \
+            [(10, 250, 0.35), (10, 250, 0.08), (12, 200, 0.22), (8, 300, 0.30), (25, 100, 0.30), (25, 100, 0.05), (11, 190, 0.06)]
+    for k, (n, m, miss) in enumerate(large):
+        grid = np.arange(m).astype(float)
+        t = grid / (m - 1)
+        x = np.round((fd.smooth_curves(rng, n, t, rough=True) + 0.2 * rng.normal(size=(n, m))) * 1024) / 1024
+        while True:
+            p_miss = np.clip(miss * np.linspace(0.4, 1.6, n), 0.0, 0.9)[rng.permutation(n)]
+            mask = rng.uniform(size=(n, m)) >= p_miss[:, None]
+            if (mask.sum(axis=1) >= 2).all() and mask.any(axis=0).all():
+                break
+        side = "observed>2000" if mask.sum() > 2000 else "observed<=2000"
+        yield (f"large-{n}x{m}/{side}", grid, x, mask, True)
     exhaustive = [(2, 2), (2, 3), (3, 2), (3, 3), (2, 4), (3, 4)]
     for (n, m) in exhaustive:
         pats = list(all_patterns(n, m))
@@ -191,6 +207,10 @@ def operations(grid):
                                                              bandwidth=h, degree=1)))
     return ops, h, ps
 
+
+# operations run on the LARGE datasets (the mean, every route into it, and what is cheap on 250-point grids)
+LARGE_OPS = {"mean-LP", "mean-PS", "mean-interpolation", "center-LP", "center-interpolation", "center-PS",
+             "covariance-raw", "covariance-PS-center", "norm", "noise_variance-2", "add"}
 
 # operations whose smoothing is needs at least three samples per curve to be well posed (degree-2 local fits)
 NEEDS3 = {"smooth-LP-degree2"}
@@ -419,6 +439,7 @@ def check_case(rep, run, pending, tmpdir, idx, label, grid, x, mask, from_csv):
             rep.case((idx, "producer"), kind=label)
             limited_violation(rep, "producer/csv-kind", "read_csv returned dense data for a table with missing cells", base)
 
+    large = x.size > 600      # big tables: a reduced set of model terms and operations (see LARGE_OPS)
     # ---- structure, against the model (exact)
     ct_lit = content_lit(grid, x, mask)
     g_lit = C.qlist(grid)
@@ -432,10 +453,19 @@ def check_case(rep, run, pending, tmpdir, idx, label, grid, x, mask, from_csv):
             _, ts, ys = irregular_raw(enc[name], grid)
             who = "read_csv output" if name == "csv" else "hand-built ragged data"
             terms.append((f"{who} is enc_ragged(content)", f"rag_ok {ct} {rag_lit(ts, ys)}"))
+    longs = {}
     for name, d in enc.items():
         oc = outcome(lambda: d.to_long())
         if oc[0] != "ok":
             terms.append((f"to_long of the {name} encoding raised {oc[1]}", "false"))
+            continue
+        if large:
+            # big tables: the long formats of the encodings are compared with each other and with the content directly
+            longs[name] = oc[1].to_numpy(dtype=float)
+            want = np.array([[grid[j], i, x[i, j]] for i in range(n) for j in range(m) if mask[i, j]])
+            rep.case((idx, "to_long", name), kind=label)
+            if longs[name].shape != want.shape or not np.array_equal(longs[name], want):
+                limited_violation(rep, f"to_long/{name}", f"to_long of the {name} encoding is not the long format of the content", base)
             continue
         lit = long_lit(oc[1])
         terms.append((f"to_long of the {name} encoding is the long format of the content",
@@ -451,9 +481,16 @@ def check_case(rep, run, pending, tmpdir, idx, label, grid, x, mask, from_csv):
     min_samples = int(mask.sum(axis=1).min())
     # F14: the two layouts of the long table (checked against the Coq model) and the two mean curves
     (y_pool, w_pool), (y_last, w_last) = layouts(x, mask)
+    binned = int(mask.sum()) > 2000
+    if binned:
+        # documented `approx` regime of mean(): the long table is first averaged per abscissa, so the layout the smoother
+        # receives is (mean per point, weight 1) — the accepted approximation; only the zero-weight rule of F14 remains
+        y_last, w_last = y_pool.copy(), np.where(y_pool == 0, 0.0, 1.0)
+        w_pool = np.ones_like(y_pool)
     lay = lambda y, w: "[" + "; ".join(f"({C.qlit(a)}, {C.qlit(b)})" for a, b in zip(y, w)) + "]"
-    terms.append(("the harness layouts of the long table are format_pooled / format_last of the content",
-                  f"layouts_ok {C.qlit(1e-12 * max(1.0, float(np.max(np.abs(x)))))} {g} {ct} {lay(y_pool, w_pool)} {lay(y_last, w_last)}"))
+    if not binned:
+      terms.append(("the harness layouts of the long table are format_pooled / format_last of the content",
+                    f"layouts_ok {C.qlit(1e-12 * max(1.0, float(np.max(np.abs(x)))))} {g} {ct} {lay(y_pool, w_pool)} {lay(y_last, w_last)}"))
     f14_models = None
     try:
         with warnings.catch_warnings():
@@ -473,6 +510,8 @@ def check_case(rep, run, pending, tmpdir, idx, label, grid, x, mask, from_csv):
                               "P-spline mean (same criterion, penalty / n_obs)", {**base, "twin": str(tw[1])[:200]})
     for name, f in ops:
         if name in NEEDS3 and min_samples < 3:
+            continue
+        if large and name not in LARGE_OPS:
             continue
         res = {k: outcome(lambda: f(d)) for k, d in enc.items()}
         if name in F14_OPS:
@@ -506,6 +545,20 @@ def check_case(rep, run, pending, tmpdir, idx, label, grid, x, mask, from_csv):
                 continue
             if not on_grid:
                 terms.append((f"{name}: result of the NaN encoding is no longer on the common grid", "false"))
+                continue
+            if large:
+                # big tables: decode in the harness (same rule as dec_nan: drop the missing cells) instead of in Coq
+                okl = all(np.array_equal(~np.isnan(y), mask[i]) for i, y in enumerate(ys_n))
+                for k in res:
+                    if k == "nan" or not okl:
+                        continue
+                    _, ts_r, ys_r = irregular_raw(res[k][1], grid)
+                    okl = okl and len(ys_r) == n and all(
+                        np.array_equal(ts_r[i], grid[mask[i]]) and close(ys_n[i][mask[i]], ys_r[i], tol)[0] for i in range(n))
+                if not okl:
+                    rep.disagreements_checked += 1
+                    limited_violation(rep, name + "/differs/large", f"{name}: the encodings of the same content give results that "
+                                      f"decode to different contents", case)
                 continue
             terms.append((f"{name}: the NaN-encoded result has samples exactly where the content has",
                           f"same_support {g} {ct} {rows_lit(ys_n)}"))
@@ -643,7 +696,8 @@ def run(rep, props, replay=None):
 
 RULE = ("n_obs 2..12 on grids of 2..9 points; every missingness pattern with >= 2 samples per curve and every grid point observed, "
         "for 2x2, 2x3, 3x2, 3x3, 2x4, 3x4 (n_obs x grid; subsampled to 8 + the complete pattern per size in the quick tier), random "
-        "patterns beyond (one in eight complete); integer grids (0..m-1, with gaps, days of the year) go through read_csv, [0,1] and "
+        "patterns beyond (one in eight complete) + LARGE datasets (10x250 ... 25x100 cells, curve-dependent missingness) on both sides of the "
+        "2000-row `approx` switch of mean() with a reduced operation set; integer grids (0..m-1, with gaps, days of the year) go through read_csv, [0,1] and "
         "non-uniform dyadic grids are hand-built; operations: to_long, mean LP/PS/interpolation, smooth LP (degree 1, 2)/PS (two "
         "settings)/interpolation, center LP/interpolation, norm (plain, squared standardised), noise_variance order 1/2, covariance "
         "raw / LP-smoothed, inner_product, + - * / between datasets and with scalars; mean / center / raw covariance / inner_product "
